@@ -97,6 +97,7 @@ fn corpus() -> Vec<Edge> {
         edge("underscore-only-field-pascal", "#[typeshare]\n#[serde(rename_all = \"PascalCase\")]\npub struct A { pub _: u8 }\n"),
         edge("non-ascii-variant-rename-all", "#[typeshare]\n#[serde(rename_all = \"camelCase\")]\npub enum E { Éa, Bé }\n"),
         edge("underscore-variant", "#[typeshare]\n#[serde(rename_all = \"camelCase\", tag = \"t\", content = \"c\")]\npub enum E { __(u8), _A }\n"),
+        edge("non-ascii-before-acronym", "#[typeshare]\npub struct Benutzer { pub größe_id: u32, pub übung_url: String, pub id_größe: u8, pub é_api_é: u8 }\n#[typeshare]\npub struct GrößeId { pub a: u8 }\n#[typeshare]\n#[serde(tag = \"t\", content = \"c\")]\npub enum ÜbungUrl { ÄpiId(GrößeId), Über { straße_id: u8 } }\n"),
         edge("non-ascii-type-name", "#[typeshare]\npub struct Étoile { pub a: u8 }\n#[typeshare]\n#[serde(tag = \"t\", content = \"c\")]\npub enum Éé { A(Étoile) }\n"),
         edge("const-every-backend", "#[typeshare]\npub const LIMIT: u32 = 7;\n"),
         edge("const-with-struct", "#[typeshare]\npub const LIMIT: u32 = 7;\n#[typeshare]\npub struct A { pub a: u8 }\n"),
@@ -265,7 +266,8 @@ pub fn run(ctx: &Ctx) -> (Spec, Report) {
     let seed = ctx.seed;
     let corp = corpus();
     // ---- (a) edge corpus through library driver (all) and binary (all) -------------------------------
-    let mut units: Vec<(usize, LangId, bool)> = vec![];
+    // (edge, language, folder mode, Go with an `uppercase_acronyms` table)
+    let mut units: Vec<(usize, LangId, bool, bool)> = vec![];
     for (i, e) in corp.iter().enumerate() {
         for l in ALL_LANGS {
             if let Some(only) = &e.only {
@@ -274,7 +276,10 @@ pub fn run(ctx: &Ctx) -> (Spec, Report) {
                 }
             }
             for multi in [false, true] {
-                units.push((i, l, multi));
+                units.push((i, l, multi, false));
+                if l == LangId::Go {
+                    units.push((i, l, multi, true));
+                }
             }
         }
     }
@@ -283,7 +288,7 @@ pub fn run(ctx: &Ctx) -> (Spec, Report) {
     let cli = ctx.cli.clone();
     let scratch = ctx.scratch("edge");
     let mut rep = par_shards(ctx.threads, units.len(), |u| {
-        let (i, lang, multi) = units_ref[u];
+        let (i, lang, multi, acronyms) = units_ref[u];
         let e = &corp_ref[i];
         let mut rep = Report::new();
         let lname = lang.name();
@@ -291,6 +296,10 @@ pub fn run(ctx: &Ctx) -> (Spec, Report) {
         let mut cfg = LangCfg::basic(lang);
         if let Some(p) = e.package {
             cfg.package = p.to_string();
+        }
+        if acronyms {
+            // rewrites every identifier in place: slices them at the positions where an acronym was found
+            cfg.uppercase_acronyms = vec!["ID".into(), "URL".into(), "Api".into(), "É".into()];
         }
         let mut files = vec![SrcFile { path: "edgecrate/src/lib.rs".into(), source: e.source.clone() }];
         files.extend(e.extra.iter().cloned());
